@@ -155,7 +155,7 @@ template <class C> static void setClientLimit(C &, std::size_t, long) {}
 template <class C> static auto clientInputFailed(C &c, int) -> decltype(c._inputFailed.load(), bool()) { return c._inputFailed.load(); }
 template <class C> static bool clientInputFailed(C &, long) { return false; }
 
-static std::string runClient(std::size_t maxsz, const std::vector<std::string> &ops)
+static std::string runClient(std::size_t maxsz, const std::vector<std::string> &ops, bool upgraded = true)
 {
   Sink sink;
   TransportConfig cfg;
@@ -167,8 +167,14 @@ static std::string runClient(std::size_t maxsz, const std::vector<std::string> &
     cl->_transport = tr;
     cl->_sessionId = 7;
   }
-  cl->_upgradeComplete.store(true);
-  cl->_state.store(WebSocketState::CONNECTED);
+  cl->_upgradeComplete.store(upgraded);
+  cl->_state.store(upgraded ? WebSocketState::CONNECTED : WebSocketState::CONNECTING);
+  if (!upgraded)
+  {
+    // the HTTP upgrade response is still to come: RFC 6455's sample key (its accept value is s3pPLMBiTxaQ9kYGzzhZRbK+xOo=)
+    cl->_wsKey = "dGhlIHNhbXBsZSBub25jZQ==";
+    cl->setOnConnect([&](const std::string &proto) { sink.drain(); sink.evs.push_back("o:" + hex(proto)); });
+  }
   setClientLimit(*cl, maxsz, 0);
   cl->setOnTextMessage([&](const std::string &t) { sink.drain(); sink.evs.push_back("t:" + hex(t)); });
   cl->setOnBinaryMessage([&](const std::vector<std::uint8_t> &b)
@@ -275,6 +281,13 @@ static std::string handle(const std::string &line)
     if (w[3] != "-") ops = split(w[3], ';');
     std::size_t maxsz = std::stoull(w[2]);
     return w[1] == "S" ? runServer(maxsz, ops) : runClient(maxsz, ops);
+  }
+  if (w[0] == "RU")
+  {
+    // client before the HTTP upgrade response: RU <maxsz> <ops>   (tested against a Python oracle, not modelled)
+    std::vector<std::string> ops;
+    if (w[2] != "-") ops = split(w[2], ';');
+    return runClient(std::stoull(w[1]), ops, false);
   }
   return "BADCASE";
 }
